@@ -298,7 +298,11 @@ class MemEngine(object):
         n = f.size * f.length
         mc = self.c.mc
         if write:
-            raw = t.bytes(n)
+            # (zero and all-ones are values like any other)
+            # (but no all-ones into the system's own pointers, from which
+            # later addresses are computed)
+            raw = [t.bytes(n), t.bytes(n), t.bytes(n), t.bytes(n), bytes(n),
+                   b"\xff" * n if sname != "sv" else bytes(n)][t.draw(6)]
             vals = self._unpack(f, raw)
             name = "write_struct_field(%s.%s,%r,p=%d)" % (sname, f.name, xy,
                                                           p)
@@ -339,7 +343,8 @@ class MemEngine(object):
                 raw = txt.encode().ljust(f.size, b"\0")
                 val = txt
             else:
-                raw = t.bytes(f.size)
+                raw = [t.bytes(f.size), t.bytes(f.size), t.bytes(f.size),
+                       bytes(f.size), b"\xff" * f.size][t.draw(5)]
                 val = self._unpack(f, raw)
             name = "write_vcpu_struct_field(%s,%r,p=%d)" % (f.name, xy, p)
             self.run_op(name, (xy, 0, addr, raw), mc.write_vcpu_struct_field,
